@@ -85,149 +85,6 @@ func edgeRegion(from, to *ssa.BasicBlock) map[*ssa.BasicBlock]bool {
 	return map[*ssa.BasicBlock]bool{}
 }
 
-func ruleMerge(r *Run) {
-	p := r.P
-	merges := discoverMerges(p)
-	r.Min("merge_functions", len(merges), 2)
-	// who is the child? determined at the call sites inside the based-on resolver: the
-	// argument derived from the recursive call's result is the parent.
-	// the resolver is whoever calls a merge function with one argument obtained by resolving the
-	// parent recursively (role, not name)
-	childIdx := map[*ssa.Function]int{}
-	recursiveParent := map[*ssa.Function]bool{}
-	isMergeFn := map[*ssa.Function]bool{}
-	for _, m := range merges {
-		isMergeFn[m] = true
-	}
-	for _, resolver := range p.ModFuncs() {
-		if resolver.Pkg == nil || resolver.Pkg.Pkg.Path() != pkgSty {
-			continue
-		}
-		allInstrs(resolver, func(in ssa.Instruction) {
-			c, ok := in.(*ssa.Call)
-			if !ok {
-				return
-			}
-			cal := staticCallee(c)
-			if !isMergeFn[cal] {
-				return
-			}
-			for i, a := range c.Call.Args {
-				fromRec := false
-				for rt := range rootsOf(a) {
-					if rc, ok := rt.(*ssa.Call); ok {
-						if rcal := staticCallee(rc); rcal != nil && (rcal == resolver || p.staticReach(rcal)[resolver]) {
-							fromRec = true
-						}
-					}
-				}
-				if fromRec {
-					recursiveParent[cal] = true
-				} else {
-					childIdx[cal] = i
-				}
-			}
-		})
-	}
-	for _, m := range merges {
-		if _, called := childIdx[m]; called {
-			r.Check("resolve-recursive", shortName(m), m.Pos(), recursiveParent[m],
-				"the parent handed to "+shortName(m)+" must itself be resolved with inheritance (result of the recursive resolution), otherwise settings of grandparents are lost")
-			if !recursiveParent[m] {
-				delete(childIdx, m)
-			}
-		}
-	}
-	nf := 0
-	for _, fn := range merges {
-		ci, ok := childIdx[fn]
-		if !ok {
-			r.Undecided("merge-prec", shortName(fn), fn.Pos(), "cannot tell which argument is the child style: no caller passes one argument derived from a recursive resolution")
-			continue
-		}
-		child, parent := ssa.Value(fn.Params[ci]), ssa.Value(fn.Params[1-ci])
-		t := isModStruct(p, fn.Params[0].Type())
-		st := t.Underlying().(*types.Struct)
-		tests := fieldNilTests(fn)
-		// stores into the merged object
-		type stinfo struct {
-			from  ssa.Value
-			block *ssa.BasicBlock
-			pos   token.Pos
-		}
-		stores := map[*types.Var][]stinfo{}
-		allInstrs(fn, func(in ssa.Instruction) {
-			s, ok := in.(*ssa.Store)
-			if !ok {
-				return
-			}
-			chain, root := addrChain(s.Addr)
-			if len(chain) != 1 || chain[0] == nil {
-				return
-			}
-			if _, isAlloc := root.(*ssa.Alloc); !isAlloc {
-				return
-			}
-			vchain, vroot := valueChain(s.Val)
-			if len(vchain) == 1 && vchain[0] == chain[0] {
-				stores[chain[0]] = append(stores[chain[0]], stinfo{vroot, s.Block(), s.Pos()})
-			} else {
-				stores[chain[0]] = append(stores[chain[0]], stinfo{nil, s.Block(), s.Pos()})
-			}
-		})
-		for i := 0; i < st.NumFields(); i++ {
-			fv := st.Field(i)
-			if fv.Name() == "XMLName" {
-				continue
-			}
-			nf++
-			key := shortName(fn) + ":" + fv.Name()
-			var fromChild, fromParent []stinfo
-			for _, s := range stores[fv] {
-				if s.from == child {
-					fromChild = append(fromChild, s)
-				}
-				if s.from == parent {
-					fromParent = append(fromParent, s)
-				}
-			}
-			if len(fromChild) == 0 || len(fromParent) == 0 {
-				r.Check("merge-cover", key, fv.Pos(), false,
-					fmt.Sprintf("%s does not carry field %s over from %s: the attribute is silently not inherited", shortName(fn), fv.Name(),
-						map[bool]string{true: "both styles", false: map[bool]string{true: "the child", false: "the parent"}[len(fromChild) == 0]}[len(fromChild) == 0 && len(fromParent) == 0]))
-				continue
-			}
-			r.Check("merge-cover", key, fromChild[0].pos, true, "field taken from child and from parent")
-			// precedence: every parent store sits in the region where child.f is nil
-			okPrec := true
-			why := ""
-			for _, s := range fromParent {
-				in := false
-				for _, t := range tests {
-					if t.Param == child && t.Field == fv && t.NilBlock[s.block] {
-						in = true
-					}
-				}
-				if !in {
-					okPrec = false
-					why = fmt.Sprintf("the parent's %s is stored at %s on a path where the child's %s is not known to be nil", fv.Name(), p.pos(s.pos), fv.Name())
-				}
-			}
-			for _, s := range fromChild {
-				// child store must not be restricted to the region where the parent's field is nil
-				for _, t := range tests {
-					if t.Param == parent && t.Field == fv && t.NilBlock[s.block] {
-						okPrec = false
-						why = fmt.Sprintf("the child's %s is only used when the parent has none (%s)", fv.Name(), p.pos(s.pos))
-					}
-				}
-			}
-			r.Check("merge-prec", key, fromParent[0].pos, okPrec, "child wins: "+map[bool]string{true: "parent value used only where the child's is nil", false: why}[okPrec])
-		}
-	}
-	r.Min("merge_field_obligations", nf, 18)
-}
-
 // ---------------------------------------------------------------------------
 // R-RECUR-GUARD: recursion along based-on must be guarded by a visited set or depth.
 // ---------------------------------------------------------------------------
